@@ -114,7 +114,7 @@ theorem ex_header (r : List Char) : transactionHeader 𝔸 ('2' :: '0' :: '2' ::
   refine ⟨(' ' :: '*' :: ' ' :: '(' :: '#' :: '1' :: ')' :: ' ' :: 'S' :: 'h' :: 'o' :: 'p' :: ' ' :: ';' :: ' ' :: ':' :: 't' :: ':' :: '\n' :: r),
     ⟨('=' :: '2' :: '0' :: '2' :: '4' :: '/' :: '0' :: '1' :: '/' :: '0' :: '6' :: ' ' :: '*' :: ' ' :: '(' :: '#' :: '1' :: ')' :: ' ' :: 'S' :: 'h' :: 'o' :: 'p' :: ' ' :: ';' :: ' ' :: ':' :: 't' :: ':' :: '\n' :: r), date_slash ['2','0','2','4'] ['0','1'] ['0','5'] _ rfl rfl rfl (by decide) (by decide),
       Or.inl ⟨_, rfl, date_slash ['2','0','2','4'] ['0','1'] ['0','6'] _ rfl rfl rfl (by decide) (by decide)⟩⟩,
-    (';' :: ' ' :: ':' :: 't' :: ':' :: '\n' :: r), Or.inl ⟨('*' :: ' ' :: '(' :: '#' :: '1' :: ')' :: ' ' :: 'S' :: 'h' :: 'o' :: 'p' :: ' ' :: ';' :: ' ' :: ':' :: 't' :: ':' :: '\n' :: r), psp1 _, ⟨?_, ['*', ' ', '(', '#', '1', ')', ' ', 'S', 'h', 'o', 'p', ' '], rfl, by decide⟩⟩,
+    (';' :: ' ' :: ':' :: 't' :: ':' :: '\n' :: r), Or.inl ⟨('*' :: ' ' :: '(' :: '#' :: '1' :: ')' :: ' ' :: 'S' :: 'h' :: 'o' :: 'p' :: ' ' :: ';' :: ' ' :: ':' :: 't' :: ':' :: '\n' :: r), psp1 _, ?_⟩,
     Or.inr ⟨'\n' :: r, ?_, newLine_nl r⟩⟩
   · -- clear mark, code, payee
     refine ⟨('(' :: '#' :: '1' :: ')' :: ' ' :: 'S' :: 'h' :: 'o' :: 'p' :: ' ' :: ';' :: ' ' :: ':' :: 't' :: ':' :: '\n' :: r), Or.inl ⟨_, Or.inl rfl, sp1 _⟩, ('S' :: 'h' :: 'o' :: 'p' :: ' ' :: ';' :: ' ' :: ':' :: 't' :: ':' :: '\n' :: r), Or.inl ⟨_, ?_, sp1 _⟩,
@@ -212,7 +212,7 @@ theorem ex_include (r : List Char) : includeDirective ('i' :: 'n' :: 'c' :: 'l' 
 theorem ex_txn2 (r : List Char) : transaction 𝔸 ('2' :: '0' :: '2' :: '4' :: '-' :: '0' :: '2' :: '-' :: '2' :: '9' :: ' ' :: 'x' :: '\r' :: '\n' :: ' ' :: 'A' :: ' ' :: ' ' :: '1' :: ' ' :: 'S' :: ' ' :: '[' :: '2' :: '0' :: '2' :: '4' :: '/' :: '0' :: '1' :: '/' :: '0' :: '2' :: ']' :: ' ' :: '@' :: ' ' :: '2' :: ' ' :: 'T' :: '\r' :: '\n' :: r) r := by
   refine ⟨(' ' :: 'A' :: ' ' :: ' ' :: '1' :: ' ' :: 'S' :: ' ' :: '[' :: '2' :: '0' :: '2' :: '4' :: '/' :: '0' :: '1' :: '/' :: '0' :: '2' :: ']' :: ' ' :: '@' :: ' ' :: '2' :: ' ' :: 'T' :: '\r' :: '\n' :: r), ?_, _, .nil _, .cons ?_ (.nil r)⟩
   · exact ⟨(' ' :: 'x' :: '\r' :: '\n' :: ' ' :: 'A' :: ' ' :: ' ' :: '1' :: ' ' :: 'S' :: ' ' :: '[' :: '2' :: '0' :: '2' :: '4' :: '/' :: '0' :: '1' :: '/' :: '0' :: '2' :: ']' :: ' ' :: '@' :: ' ' :: '2' :: ' ' :: 'T' :: '\r' :: '\n' :: r), ⟨_, Or.inr ⟨['2','0','2','4'], ['0','2'], ['2','9'], rfl, rfl, rfl, rfl, by decide, by decide⟩, Or.inr rfl⟩,
-      ('\r' :: '\n' :: ' ' :: 'A' :: ' ' :: ' ' :: '1' :: ' ' :: 'S' :: ' ' :: '[' :: '2' :: '0' :: '2' :: '4' :: '/' :: '0' :: '1' :: '/' :: '0' :: '2' :: ']' :: ' ' :: '@' :: ' ' :: '2' :: ' ' :: 'T' :: '\r' :: '\n' :: r), Or.inl ⟨('x' :: '\r' :: '\n' :: ' ' :: 'A' :: ' ' :: ' ' :: '1' :: ' ' :: 'S' :: ' ' :: '[' :: '2' :: '0' :: '2' :: '4' :: '/' :: '0' :: '1' :: '/' :: '0' :: '2' :: ']' :: ' ' :: '@' :: ' ' :: '2' :: ' ' :: 'T' :: '\r' :: '\n' :: r), psp1 _, ⟨⟨_, Or.inr rfl, _, Or.inr rfl, star_chr_of ['x'] _ (by decide)⟩, ['x'], rfl, by decide⟩⟩,
+      ('\r' :: '\n' :: ' ' :: 'A' :: ' ' :: ' ' :: '1' :: ' ' :: 'S' :: ' ' :: '[' :: '2' :: '0' :: '2' :: '4' :: '/' :: '0' :: '1' :: '/' :: '0' :: '2' :: ']' :: ' ' :: '@' :: ' ' :: '2' :: ' ' :: 'T' :: '\r' :: '\n' :: r), Or.inl ⟨('x' :: '\r' :: '\n' :: ' ' :: 'A' :: ' ' :: ' ' :: '1' :: ' ' :: 'S' :: ' ' :: '[' :: '2' :: '0' :: '2' :: '4' :: '/' :: '0' :: '1' :: '/' :: '0' :: '2' :: ']' :: ' ' :: '@' :: ' ' :: '2' :: ' ' :: 'T' :: '\r' :: '\n' :: r), psp1 _, ⟨_, Or.inr rfl, _, Or.inr rfl, star_chr_of ['x'] _ (by decide)⟩⟩,
       Or.inl (newLine_crnl _)⟩
   · refine ⟨'\r' :: '\n' :: r, ⟨('A' :: ' ' :: ' ' :: '1' :: ' ' :: 'S' :: ' ' :: '[' :: '2' :: '0' :: '2' :: '4' :: '/' :: '0' :: '1' :: '/' :: '0' :: '2' :: ']' :: ' ' :: '@' :: ' ' :: '2' :: ' ' :: 'T' :: '\r' :: '\n' :: r), psp1 _, _, Or.inr rfl, (' ' :: ' ' :: '1' :: ' ' :: 'S' :: ' ' :: '[' :: '2' :: '0' :: '2' :: '4' :: '/' :: '0' :: '1' :: '/' :: '0' :: '2' :: ']' :: ' ' :: '@' :: ' ' :: '2' :: ' ' :: 'T' :: '\r' :: '\n' :: r),
         ⟨account_one 'A' _ (by decide), ['A'], rfl, by decide⟩, Or.inl ?_⟩,
